@@ -73,10 +73,9 @@ package parser
 //@ ensures unlocated: is(err, parser.Error) && err.(parser.Error).Path() == "" && err.(parser.Error).LineNumber() == 0 && !loc.SourceLocation().IsZero() ==> result.LineNumber() == loc.SourceLocation().LineNo && result.Path() == loc.SourceLocation().Pathname && result.Cause() == ite(err.(parser.Error).Cause() != nil, err.(parser.Error).Cause(), err)
 
 // ---- tokenizer (C05, C07, C13, C19) -----------------------------------------------
-// tokobj / toktag describe a match of the matcher built for four delimiters: it starts
-// with the left and ends with the right delimiter and holds at least one more byte.
-//@ define tokobj(re Int, s Str, a Int, b Int) Bool = hasprefix(substr(s, a, b), tmd(re, 0)) && substr(s, b - len(tmd(re, 1)), b) == tmd(re, 1) && b - a >= len(tmd(re, 0)) + 1 + len(tmd(re, 1)) && !hasprefix(substr(s, a, b), tmd(re, 2))
-//@ define toktag(re Int, s Str, a Int, b Int) Bool = hasprefix(substr(s, a, b), tmd(re, 2)) && substr(s, b - len(tmd(re, 3)), b) == tmd(re, 3) && b - a >= len(tmd(re, 2)) + 1 + len(tmd(re, 3)) && !hasprefix(substr(s, a, b), tmd(re, 0))
+// The matcher built for four delimiters is described (trusted) in /verif/contracts/regexp.spec:
+// each match starts with the object or the tag left delimiter and is long enough to hold
+// both delimiters and at least one more byte. tmd(re, k) is the k-th delimiter.
 
 //@ func parser.formTokenMatcher
 //@ unverified
